@@ -63,30 +63,24 @@ Definition defn_eqb (a b : defn) : bool :=
   Bool.eqb (d_datatime a) (d_datatime b) && Bool.eqb (d_data a) (d_data b) &&
   listN_eqb (d_main a) (d_main b) && listN_eqb (d_subt a) (d_subt b) && Bool.eqb (d_mark a) (d_mark b).
 
-Record tag := mkTag { t_def : defn; t_m : N; t_u : N; t_conv : list N }.
+(* A fixed set of tag names (slots) is kept, sorted by descending name; an absent tag is a dead slot. *)
+Record tag := mkTag0 { t_def : defn; t_m : N; t_u : N; t_conv : list N; t_live : bool }.
+Definition mkTag (d : defn) (m u : N) (c : list N) : tag := mkTag0 d m u c true.
+Definition dead_def : defn := mkDef 0 true false false false [] [] false.
+Definition dead : tag := mkTag0 dead_def 0 0 [] false.
 
 Definition tags_t := list (N * tag).
 
 Fixpoint tget (n : N) (ts : tags_t) : option tag :=
   match ts with
   | [] => None
-  | (k, t) :: r => if k =? n then Some t else tget n r
+  | (k, t) :: r => if k =? n then (if t_live t then Some t else None) else tget n r
   end.
 
-(* insert keeping the list sorted by DESCENDING name (head = highest rank); replaces an existing entry *)
-Fixpoint tset (n : N) (t : tag) (ts : tags_t) : tags_t :=
-  match ts with
-  | [] => [(n, t)]
-  | (k, x) :: r => if k <? n then (n, t) :: (k, x) :: r
-                   else if k =? n then (n, t) :: r
-                   else (k, x) :: tset n t r
-  end.
+Definition tset (n : N) (t : tag) (ts : tags_t) : tags_t :=
+  map (fun kt => if fst kt =? n then (fst kt, t) else kt) ts.
 
-Fixpoint tdel (n : N) (ts : tags_t) : tags_t :=
-  match ts with
-  | [] => []
-  | (k, x) :: r => if k =? n then r else (k, x) :: tdel n r
-  end.
+Definition tdel (n : N) (ts : tags_t) : tags_t := tset n dead ts.
 
 Definition tu (n : N) (ts : tags_t) : N := match tget n ts with Some t => t_u t | None => 0 end.
 Definition tm (n : N) (ts : tags_t) : N := match tget n ts with Some t => t_m t | None => 0 end.
@@ -147,8 +141,9 @@ Record state := mkSt {
   hist : list iresp;                   (* ghost: completed imports, newest first *)
   views : list (N * (N -> N)) }.       (* open views: number -> version snapshot *)
 
+Definition slots : list N := [7; 6; 5; 4; 3; 2; 1; 0].
 Definition init (cs : list N) : state :=
-  mkSt 0 [] 0 0 0 0 [] cs (fun _ => 0) (fun _ _ => None) (fun _ => 0) [] O None None None None [] [].
+  mkSt 0 (map (fun n => (n, dead)) slots) 0 0 0 0 [] cs (fun _ => 0) (fun _ _ => None) (fun _ => 0) [] O None None None None [] [].
 
 Definition set_tags (st : state) (ts : tags_t) : state :=
   mkSt (next st) ts (m_upd st) (m_rst st) (m_add st) (m_cupd st) (queue st) (convs st) (toconv st) (cache st)
@@ -215,6 +210,7 @@ Fixpoint inherit (allS : N) (ts : tags_t) : tags_t :=
 (* ---------------------------------------------------------------- invalidateTags *)
 Definition invalidate_one (k : kf) (allS upd rst add : N) (t : tag) : tag :=
   let d := t_def t in
+  if negb (t_live t) then t else
   if d_sub d then mkTag d (t_m t) allS (t_conv t)
   else if d_idonly d then
     (if kf_idonly k then t else mkTag d (t_m t) (union (t_u t) add) (t_conv t))
